@@ -37,6 +37,8 @@ def feed(cls, stream, cuts, lost_exc=None):
         for c in list(cuts) + [len(stream)]:
             if c <= pos:
                 continue
+            if t.closed:
+                break               # a real transport delivers nothing more once the client has closed it
             try:
                 p.data_received(stream[pos:c])
             except Exception as e:  # noqa: BLE001  (asyncio would now call connection_lost(exc))
@@ -95,7 +97,7 @@ STREAMS = [
     b"20 text/gemini\r\n# hi\n", b"20 text/gemini; charset=utf-8\r\nh\xc3\xa9llo", b"20 text/plain; charset=iso-8859-1\r\nh\xe9llo",
     b"20 text/plain; charset=klingon\r\nabc", b"20 text/plain; charset=undefined\r\nabc", b"20 text/plain; charset=a\x00b\r\nabc", b"20 text/plain; charset=rot13\r\nabc",
     b"20 text/gemini; charset=\r\nabc", b"20 text/plain;charset=\"UTF-8\"\r\nx", b"20 text/gemini\r\n\xff\xfe", b"20 image/png\r\n\x89PNG\r\n\x00",
-    b"20 \r\nbody", b"20\r\nbody", b"31 gemini://other.example/\r\nignored body", b"51 Not found\r\n", b"10 Enter a value\r\n", b"60 cert\r\nxx",
+    b"20 \r\nbody", b"20\r\nbody", b"21 text/plain\r\nbody of a 21", b"25 text/gemini\r\n# twenty-five\n", b"29 application/octet-stream\r\n\x00\x01\x02", b"31 gemini://other.example/\r\nignored body", b"51 Not found\r\n", b"10 Enter a value\r\n", b"60 cert\r\nxx",
     b"99 too high\r\n", b"09 low\r\n", b"xx nonsense\r\n", b"\xff\xfe bad header\r\n", b"no crlf at all", b"", b"2", b"20 text/gemini\r",
     b"44 slow down\r\n", b"20 text/gemini\r\n" + b"a" * 70000,
 ]
